@@ -178,6 +178,20 @@ def z_coarse(seed, T=8):
     return 'coarse', eao.portfolio.Portfolio(a), pr, tg
 
 
+def z_coarse_window(seed, T=8):
+    """assets with a coarser frequency of their own whose lifetime ends before / starts after the borders of the grid"""
+    n1, n2 = A.Node(NN('n1')), A.Node(NN('n2'))
+    tg = grid(T)
+    pr = prices_for(T, seed)
+    H = dt.timedelta(hours=1)
+    a = [A.SimpleContract(NM('block'), n1, price='p1', min_cap=-2, max_cap=2, freq='2h', end=START + 4 * H),
+         A.Transport(NM('pipe'), [n1, n2], min_cap=0, max_cap=2, efficiency=0.5, freq='4h', end=START + 4 * H),
+         A.Storage(NM('late'), n1, size=4, cap_in=1, cap_out=1, freq='2h', start=START + 2 * H, end=START + 6 * H),
+         A.SimpleContract(NM('m1'), n1, price='p2', min_cap=-5, max_cap=5),
+         A.SimpleContract(NM('m2'), n2, price='p3', min_cap=-5, max_cap=5)]
+    return 'coarse_window', eao.portfolio.Portfolio(a), pr, tg
+
+
 def z_periodic(seed, T=8):
     n1, n2 = A.Node(NN('n1')), A.Node(NN('n2'))
     tg = grid(T, freq='h')
@@ -233,7 +247,7 @@ def z_windows(seed, T=6):
     return 'windows', eao.portfolio.Portfolio(a), pr, tg
 
 
-LP_ZOO = [z_contracts, z_transport_storage, z_multi, z_scaled, z_structured, z_orderbook, z_coarse, z_periodic, z_periodic_duration,
+LP_ZOO = [z_contracts, z_transport_storage, z_multi, z_scaled, z_structured, z_orderbook, z_coarse, z_coarse_window, z_periodic, z_periodic_duration,
           z_digit_names, z_windows]
 MIP_ZOO = [z_plant_fuel, z_chp, z_chp_minload, z_linked, z_storage_mip]
 ZOO = LP_ZOO + MIP_ZOO
